@@ -16,7 +16,23 @@ use vcommon::*;
 use wit_bindgen::rt::async_support as rt;
 
 thread_local! {
+    /// where the traces go (needed by the livelock guard)
+    pub static SINK: RefCell<Option<NdjsonWriter>> = RefCell::new(None);
     pub static WAKERS: RefCell<HashMap<usize, Waker>> = RefCell::new(HashMap::new());
+}
+
+pub fn dump_and_exit(trace: &[Value]) -> ! {
+    SINK.with(|s| {
+        if let Some(w) = s.borrow_mut().as_mut() {
+            for e in trace {
+                let _ = w.write(e);
+            }
+            let _ = w.write(&json!({"ev": "end", "live": [], "trap": "livelock"}));
+            let _ = w.write(&json!({"ev": "summary", "runs": 0, "scenarios": 0, "truncated": 0, "aborted": "livelock"}));
+            let _ = w.flush();
+        }
+    });
+    std::process::exit(3)
 }
 
 // ---------------------------------------------------------------------------------------------
@@ -320,7 +336,23 @@ fn main() -> anyhow::Result<()> {
     }
     std::panic::set_hook(Box::new(|_| {}));
     let scenarios = read_ndjson(&a[2])?;
-    let mut w = NdjsonWriter::create(&a[3])?;
+    SINK.with(|s| -> anyhow::Result<()> {
+        *s.borrow_mut() = Some(NdjsonWriter::create(&a[3])?);
+        Ok(())
+    })?;
+    struct W;
+    impl W {
+        fn write(&mut self, v: &Value) -> anyhow::Result<()> {
+            SINK.with(|s| s.borrow_mut().as_mut().unwrap().write(v))
+        }
+        fn flush(&mut self) -> anyhow::Result<()> {
+            SINK.with(|s| s.borrow_mut().as_mut().unwrap().flush())
+        }
+        fn finish(self) -> anyhow::Result<()> {
+            SINK.with(|s| s.borrow_mut().take().unwrap().finish())
+        }
+    }
+    let mut w = W;
     let mut runs = 0usize;
     let mut truncated = 0usize;
     for sc in &scenarios {
